@@ -674,48 +674,166 @@ theorem C06_leaky_max_form_counterexample :
     (leakyMaxForm 2 (D.var (-1))).tan = 1 ∧ (D.relu (D.var (-1)) 2).tan = 2 := by
   decide +kernel
 
-/-! ## binary(use_stochastic_rounding=True) in the training phase — recorded finding
+/-! ## binary(use_stochastic_rounding=True) in the training phase
 
-  `x = f * _round_through(x / f, True, 0.125)` with `f = 2·min(max|x|, 1)` differentiable: the tangent of
-  the carrier is `x' + f'·(r − x/f)` (`r` the rounded quotient): the rounding residue of EVERY element leaks
-  into the gradient of the arg-max element. -/
+  `x = f * _round_through(x / f, True, 0.125)` with `f = tf.stop_gradient(2·min(max|x|, 1))` (repaired by
+  95def59; before, `f` was differentiable and the arg-max element of every scale group received the rounding
+  residues of all elements), and `f = 1` for a group of zeros (0c3be6f; before, `x / 0` = NaN).  `f` below is
+  ANY dual number — whatever value and tangent `2 * m` carries — the model applies the code's stop_gradient and
+  fall-back to it. -/
 
-theorem C06_binary_sr_train_tan (t : Tie) (f : D) (hf : f.val ≠ 0) (u : ℚ) (x : D) :
-    (binSRTrainX t f u x).tan
-      = x.tan + f.tan * (D.stochRoundV (1/8) u (x.val / f.val) - x.val / f.val) := by
+theorem C06_binSRNorm_tan (f : D) : (binSRNorm f).tan = 0 := by
+  unfold binSRNorm; split <;> rfl
+
+theorem C06_binSRNorm_pos (f : D) : 0 < (binSRNorm f).val := by
+  unfold binSRNorm; split
+  · assumption
+  · simp [D.const]
+
+theorem C06_binSRNorm_val (f : D) : (binSRNorm f).val = if 0 < f.val then f.val else 1 := by
+  unfold binSRNorm; split <;> rfl
+
+/-- FULL theorem (was `C06_binary_sr_train_partial`, which needed `f.tan = 0` and `f.val ≠ 0`): the training
+    carrier is straight-through for EVERY element — the arg-max element of a group with `max|x| ≤ 1` and the
+    elements of an all-zero group included; no hypothesis is left -/
+theorem C06_binary_sr_train_grad (t : Tie) (f : D) (u : ℚ) (x : D) :
+    (binSRTrainX t f u x).tan = x.tan := by
+  have hp := (C06_binSRNorm_pos f).ne'
+  have h0 := C06_binSRNorm_tan f
   unfold binSRTrainX
+  simp only [D.mul, D.div, C06_roundThroughS_tan, h0]
+  field_simp
+  ring
+
+/-- forward value of the training carrier: `g · stochastic_round(x / g, 1/8)`, `g = f` (1 for a group of zeros) -/
+theorem C06_binary_sr_train_val (t : Tie) (f : D) (u : ℚ) (x : D) :
+    (binSRTrainX t f u x).val
+      = (if 0 < f.val then f.val else 1) * D.stochRoundV (1/8) u (x.val / (if 0 < f.val then f.val else 1)) := by
+  unfold binSRTrainX
+  rw [show (D.mul (binSRNorm f) (D.roundThroughS t (binSRRnd u) (D.div x (binSRNorm f)))).val
+        = (binSRNorm f).val * (D.roundThroughS t (binSRRnd u) (D.div x (binSRNorm f))).val from rfl,
+      C06_roundThroughS_train_val t (binSRRnd u) rfl rfl, ← C06_binSRNorm_val]
+  rfl
+
+/-- neither repair moves the forward value of a group with a non-zero element: un-stopped, stopped and
+    stopped-with-fall-back carriers have the same value there -/
+theorem C06_binary_sr_unstopped_val (t : Tie) (f : D) (hf : 0 < f.val) (u : ℚ) (x : D) :
+    (binSRTrainXUnstopped t f u x).val = (binSRTrainX t f u x).val ∧
+    (binSRTrainXNoFallback t f u x).val = (binSRTrainX t f u x).val := by
+  have : binSRNorm f = D.sg f := by unfold binSRNorm; rw [if_pos hf]
+  unfold binSRTrainX
+  rw [this]
+  exact ⟨rfl, rfl⟩
+
+/-- what the stop_gradient is for — closed form of the leak of the un-stopped expression: the tangent is
+    `x' + f'·(r − x/f)` (`r` the rounded quotient): through `f'` the rounding residue of EVERY element reaches
+    the arg-max element -/
+theorem C06_binary_sr_unstopped_tan (t : Tie) (f : D) (hf : f.val ≠ 0) (u : ℚ) (x : D) :
+    (binSRTrainXUnstopped t f u x).tan
+      = x.tan + f.tan * (D.stochRoundV (1/8) u (x.val / f.val) - x.val / f.val) := by
+  unfold binSRTrainXUnstopped binSRRnd
   simp only [D.mul, D.div, D.roundThroughS, if_true, D.add, D.sg, D.neg, D.stochRound]
   field_simp
   ring
 
-/-- provable part: where `f` does not depend on the input (every element but the arg-max, or
-    `max|x| > 1`, or `f` under stop_gradient) the carrier is straight-through -/
-theorem C06_binary_sr_train_partial (t : Tie) (f : D) (hf : f.val ≠ 0) (h0 : f.tan = 0) (u : ℚ) (x : D) :
-    (binSRTrainX t f u x).tan = x.tan := by
-  rw [C06_binary_sr_train_tan t f hf, h0]; ring
+/-- where `2 * m` is positive and carries no tangent (every element but the arg-max, `max|x| > 1`) the
+    pre-repair form coincides with the code -/
+theorem C06_binary_sr_unstopped_agrees (t : Tie) (f : D) (hf : 0 < f.val) (h0 : f.tan = 0) (u : ℚ) (x : D) :
+    binSRTrainXUnstopped t f u x = binSRTrainX t f u x := by
+  have h1 : D.sg f = f := by cases f; simp_all [D.sg]
+  have h2 : binSRNorm f = f := by unfold binSRNorm; rw [if_pos hf, h1]
+  unfold binSRTrainXUnstopped binSRTrainX
+  rw [h2]
 
-/-- constant-scale binary in training, `f` independent of the input: gradient 1 -/
-theorem C06_binary_sr_partial (t : Tie) (phase : Bool) (th th' : ℚ → ℚ) (f : D) (hf : f.val ≠ 0)
-    (h0 : f.tan = 0) (u x : ℚ) (xq : D) :
+/-- what the fall-back is for: without it the carrier of an all-zero group (`2 * m = 0`) has tangent 0 in
+    exact arithmetic — for every input tangent, so never the identity — and is `0 * (x / 0)` = NaN in float32 -/
+theorem C06_binary_sr_zero_group_no_fallback (t : Tie) (ft u : ℚ) (x : D) :
+    (binSRTrainXNoFallback t ⟨0, ft⟩ u x).tan = 0 := by
+  unfold binSRTrainXNoFallback
+  simp [D.mul, D.div, D.sg, C06_roundThroughS_tan]
+
+/-- binary with a scale (constant, 'auto', 'auto_po2'), flag set, EITHER learning phase, every draw, every
+    `2 * m` (any value, any tangent), every quantized tensor: gradient 1 (was `C06_binary_sr_partial` with
+    `f.val ≠ 0`, `f.tan = 0`) -/
+theorem C06_binary_sr_grad (t : Tie) (phase : Bool) (th th' : ℚ → ℚ) (f : D) (u x : ℚ) (xq : D) :
     (binSRD t phase false th th' f u (D.var x) xq).tan = 1 := by
-  unfold binSRD
+  unfold binSRD binSRWith
   rw [C06_steMix_tan]
   cases phase
   · simp [D.var]
   · simp only [if_true, Bool.false_eq_true, if_false, one_mul]
-    rw [C06_binary_sr_train_partial t f hf h0]; rfl
+    rw [C06_binary_sr_train_grad t f]; rfl
+
+/-- … and its forward value is the quantized tensor -/
+theorem C06_binary_sr_val (t : Tie) (phase alphaNone : Bool) (th th' : ℚ → ℚ) (f : D) (u : ℚ) (x xq : D) :
+    (binSRD t phase alphaNone th th' f u x xq).val = xq.val := by
+  unfold binSRD binSRWith
+  rw [C06_steMix_val]; ring
+
+/-- unscaled binary (alpha=None) with the flag: the gradient is `tanh'` AT THE CARRIER — the input itself in
+    phase 0, the stochastically rounded input `g·stochastic_round(x/g, 1/8)` in training (recorded finding
+    C06-binary-sr-train-tanh-at-rounded: not `tanh'(x)`); nothing else enters (no leak through `f`) -/
+theorem C06_binary_sr_tanh_grad (t : Tie) (phase : Bool) (th th' : ℚ → ℚ) (f : D) (u x : ℚ) (xq : D) :
+    (binSRD t phase true th th' f u (D.var x) xq).tan
+      = th' (if phase then (if 0 < f.val then f.val else 1)
+                * D.stochRoundV (1/8) u (x / (if 0 < f.val then f.val else 1)) else x) := by
+  unfold binSRD binSRWith
+  rw [C06_steMix_tan]
+  cases phase
+  · simp [D.var, D.fn]
+  · simp only [if_true, one_mul, D.fn]
+    rw [C06_binary_sr_train_grad t f, C06_binary_sr_train_val]
+    simp [D.var]
+
+/-- an all-zero group in training: the carrier is 0 with tangent 1, so `tanh'(0)` for alpha=None — the
+    documented surrogate exactly -/
+theorem C06_binary_sr_zero_group (t : Tie) (ft u : ℚ) :
+    binSRTrainX t ⟨0, ft⟩ u (D.var 0) = ⟨0, 1⟩ := by
+  have hv := C06_binary_sr_train_val t ⟨0, ft⟩ u (D.var 0)
+  have ht := C06_binary_sr_train_grad t ⟨0, ft⟩ u (D.var 0)
+  have h0 : D.stochRoundV (1 / 8) u 0 = 0 := by
+    have hfl : Rat.floor 0 = 0 := by decide +kernel
+    unfold D.stochRoundV D.ceilv; simp [hfl]
+  simp only [lt_self_iff_false, if_false, D.var, div_one, h0, mul_zero] at hv ht
+  cases h : binSRTrainX t ⟨0, ft⟩ u (D.var 0) with
+  | mk v tn => simp_all [D.var]
 
 /-- learning phase 0: exactly `binTerD` (the flag changes nothing in the gradient path) -/
 theorem C06_binary_sr_infer (t : Tie) (alphaNone : Bool) (th th' : ℚ → ℚ) (f : D) (u : ℚ) (x xq : D) :
     binSRD t false alphaNone th th' f u x xq = binTerD alphaNone th th' x xq := by
-  unfold binSRD binTerD; simp
+  unfold binSRD binSRWith binTerD; simp
 
-/-- COUNTEREXAMPLE (known finding C06-binary-sr-train-leak): an element x_j = 5/16 (tangent 0 w.r.t. the
-    arg-max element), f = 1 with tangent 2 (max|x| = 1/2 at a positive arg-max), draw 0: the output
-    y_j = 3/8 has derivative 1/8 w.r.t. the arg-max element — the identity surrogate has 0 there -/
-theorem C06_binary_sr_train_counterexample :
-    (binSRD .even true false (fun _ => 0) (fun _ => 0) ⟨1, 2⟩ 0 ⟨5 / 16, 0⟩ (D.const 1)).tan = 1 / 8 := by
+/-- REGRESSION WITNESS of 95def59 (the former counterexample, known finding C06-binary-sr-train-leak): an
+    element x_j = 5/16 (tangent 0 w.r.t. the arg-max element), 2·m = 1 with tangent 2 (max|x| = 1/2 at a
+    positive arg-max), draw 0.  The output y_j = 3/8 no longer depends on the arg-max element (derivative 0,
+    as for the identity surrogate); the un-stopped expression gave 1/8 -/
+theorem C06_binary_sr_train_fixed_witness :
+    (binSRD .even true false (fun _ => 0) (fun _ => 0) ⟨1, 2⟩ 0 ⟨5 / 16, 0⟩ (D.const 1)).tan = 0 ∧
+    (binSRUnstoppedD .even true false (fun _ => 0) (fun _ => 0) ⟨1, 2⟩ 0 ⟨5 / 16, 0⟩ (D.const 1)).tan = 1 / 8 ∧
+    (binSRTrainX .even ⟨1, 2⟩ 0 ⟨5 / 16, 0⟩).val = 3 / 8 := by
   decide +kernel
+
+/-- … and the arg-max element itself (x_i = 1/2, tangent 1, 2·m = 1 with tangent 2): gradient 1; the un-stopped
+    expression is straight-through there only because 1/2 / 1 is already a multiple of 1/8 -/
+theorem C06_binary_sr_train_fixed_witness_argmax :
+    (binSRD .even true false (fun _ => 0) (fun _ => 0) ⟨1, 2⟩ 0 (D.var (1 / 2)) (D.const 1)).tan = 1 := by
+  decide +kernel
+
+/-- REGRESSION WITNESS of 0c3be6f: binary(alpha=1.0, use_stochastic_rounding=True)(zeros) in training —
+    value = the quantized tensor, gradient 1 (the real code returned NaN for both) -/
+theorem C06_binary_sr_zero_group_fixed_witness :
+    binSRD .even true false (fun _ => 0) (fun _ => 0) ⟨0, 0⟩ (1 / 2) (D.var 0) (D.const 1) = ⟨1, 1⟩ ∧
+    (binSRTrainXNoFallback .even ⟨0, 0⟩ (1 / 2) (D.var 0)).tan = 0 := by
+  decide +kernel
+
+/-- COUNTEREXAMPLE (known finding C06-binary-sr-train-tanh-at-rounded, kept): alpha=None, training, x = 5/16,
+    f = 1, draw 0 → the carrier is 3/8 and the gradient is `tanh'(3/8)`, for EVERY derivative function — the
+    documented surrogate has `tanh'(5/16)` -/
+theorem C06_binary_sr_train_tanh_at_rounded_counterexample (th th' : ℚ → ℚ) (ft : ℚ) (xq : D) :
+    (binSRD .even true true th th' ⟨1, ft⟩ 0 (D.var (5 / 16)) xq).tan = th' (3 / 8) := by
+  rw [C06_binary_sr_tanh_grad]
+  have : D.stochRoundV (1 / 8) 0 (5 / 16 / 1) = 3 / 8 := by decide +kernel
+  simp only [if_true, zero_lt_one, this, one_mul]
 
 /-! ## non-vacuity of the new statements -/
 
